@@ -155,3 +155,199 @@ Proof.
   change (256 ^ N.of_nat 1)%N with 256%N. change (256 ^ N.of_nat 0)%N with 1%N.
   f_equal; [|f_equal]; lia.
 Qed.
+
+(* ================================================================== *)
+Section ICM_PROOFS.
+Variable E : bytes -> bytes.                         (* one block under the expanded key *)
+Hypothesis E_len : forall b, length (E b) = 16%nat.
+
+(* ceil(p/16): number of keystream blocks touched by the first p bytes *)
+Definition blocks_of (p : Z) : Z := (p + 15) / 16.
+
+(* the counter of block k of the segment that starts at ctr0.  (ctr_add ctr0 0 is
+   ctr0 only when the last two elements of ctr0 are octets, see ctr_add_0.) *)
+Definition ctr_at (ctr0 : bytes) (k : Z) : bytes := if k =? 0 then ctr0 else ctr_add ctr0 k.
+
+(* reference: plain counter mode, E(ctr0) || E(ctr0+1) || ... cut to n bytes *)
+Definition ctr_keystream (ctr0 : bytes) (n : nat) : bytes :=
+  take n (concat (ks_blocks E ((n + 15) / 16)%nat ctr0)).
+
+(* the state reached after consuming pos bytes since icm_set_iv produced ctr0 *)
+Record wf (c : icm) (ctr0 : bytes) (pos : Z) : Prop := {
+  wf_pos : 0 <= pos;
+  wf_ctr0 : length ctr0 = 16%nat;
+  wf_ctr : i_ctr c = ctr_at ctr0 (blocks_of pos);
+  wf_in : i_in c = (16 - pos mod 16) mod 16;
+  wf_buflen : length (i_buf c) = 16%nat;
+  wf_buf : 0 < pos -> i_buf c = E (ctr_at ctr0 (blocks_of pos - 1)) }.
+
+(* the terminus check of srtp_aes_icm_encrypt, as a function of the call length *)
+Definition icm_refuses (c : icm) (n : Z) : bool :=
+  icm_max_blocks_c <? u64 (u64 (n - i_in c) + 15) / 16 + ctr_low (i_ctr c).
+
+Lemma icm_encrypt_eq : forall c data,
+  icm_encrypt E c data =
+  if icm_refuses c (lenZ data) then (st_terminus, c, [])
+  else if lenZ data <=? i_in c then
+    (st_ok, {| i_off := i_off c; i_ctr := i_ctr c; i_buf := i_buf c; i_in := i_in c - lenZ data |},
+     xor_bytes data (slice (zn (16 - i_in c)) (zn (lenZ data)) (i_buf c)))
+  else
+    (st_ok, {| i_off := i_off c;
+               i_ctr := ctr_add (i_ctr c) ((lenZ data - i_in c + 15) / 16);
+               i_buf := last (ks_blocks E (zn ((lenZ data - i_in c + 15) / 16)) (i_ctr c)) (i_buf c);
+               i_in := (16 - (lenZ data - i_in c) mod 16) mod 16 |},
+     xor_bytes data (take (zn (lenZ data))
+        (drop (zn (16 - i_in c)) (i_buf c) ++
+         concat (ks_blocks E (zn ((lenZ data - i_in c + 15) / 16)) (i_ctr c))))).
+Proof. reflexivity. Qed.
+
+(* ---- counters ---- *)
+Lemma ctr_at_0 : forall ctr0, ctr_at ctr0 0 = ctr0.
+Proof. reflexivity. Qed.
+
+Lemma ctr_at_length : forall ctr0 k, length ctr0 = 16%nat -> length (ctr_at ctr0 k) = 16%nat.
+Proof.
+  intros ctr0 k Hlen. unfold ctr_at. destruct (k =? 0) eqn:Hk.
+  - exact Hlen.
+  - apply ctr_add_length. exact Hlen.
+Qed.
+
+Lemma ctr_at_add : forall ctr0 k j, length ctr0 = 16%nat -> 0 <= k -> 1 <= j ->
+  ctr_add (ctr_at ctr0 k) j = ctr_at ctr0 (k + j).
+Proof.
+  intros ctr0 k j Hlen Hk Hj. unfold ctr_at.
+  destruct (k + j =? 0) eqn:Hkj; [lia|].
+  destruct (k =? 0) eqn:Hk0.
+  - replace (k + j) with j by lia. reflexivity.
+  - apply ctr_add_add. exact Hlen.
+Qed.
+
+Lemma ctr_low_ctr_at : forall ctr0 k, length ctr0 = 16%nat -> 0 <= k ->
+  ctr_low ctr0 + k <= 65535 -> ctr_low (ctr_at ctr0 k) = ctr_low ctr0 + k.
+Proof.
+  intros ctr0 k Hlen Hk Hr. unfold ctr_at. destruct (k =? 0) eqn:Hk0.
+  - lia.
+  - rewrite ctr_low_ctr_add by exact Hlen.
+    pose proof (ctr_low_range ctr0) as Hl. set (l := ctr_low ctr0) in *. clearbody l. lia.
+Qed.
+
+(* ---- keystream blocks ---- *)
+Lemma ks_blocks_length : forall n ctr, length (ks_blocks E n ctr) = n.
+Proof.
+  induction n as [|n IHn]; intros ctr; cbn [ks_blocks length].
+  - reflexivity.
+  - rewrite IHn. reflexivity.
+Qed.
+
+Lemma ks_blocks_all16 : forall n ctr, Forall (fun b => length b = 16%nat) (ks_blocks E n ctr).
+Proof.
+  induction n as [|n IHn]; intros ctr; cbn [ks_blocks].
+  - constructor.
+  - constructor; [apply E_len | apply IHn].
+Qed.
+
+Lemma ks_concat_length : forall n ctr, length (concat (ks_blocks E n ctr)) = (16 * n)%nat.
+Proof.
+  intros n ctr. rewrite length_concat16 by apply ks_blocks_all16.
+  rewrite ks_blocks_length. reflexivity.
+Qed.
+
+Lemma ks_blocks_app : forall ctr0 a b k, length ctr0 = 16%nat -> 0 <= k ->
+  ks_blocks E (a + b) (ctr_at ctr0 k) =
+  ks_blocks E a (ctr_at ctr0 k) ++ ks_blocks E b (ctr_at ctr0 (k + Z.of_nat a)).
+Proof.
+  intros ctr0 a b k Hlen. revert k. induction a as [|a IHa]; intros k Hk.
+  - cbn [Nat.add ks_blocks app]. replace (k + Z.of_nat 0) with k by lia. reflexivity.
+  - cbn [Nat.add ks_blocks app]. rewrite ctr_at_add by (try exact Hlen; lia).
+    rewrite IHa by lia. replace (k + 1 + Z.of_nat a) with (k + Z.of_nat (S a)) by lia.
+    reflexivity.
+Qed.
+
+Lemma ks_blocks_app0 : forall ctr0 a b, length ctr0 = 16%nat ->
+  ks_blocks E (a + b) ctr0 = ks_blocks E a ctr0 ++ ks_blocks E b (ctr_at ctr0 (Z.of_nat a)).
+Proof.
+  intros ctr0 a b Hlen. exact (ks_blocks_app ctr0 a b 0 Hlen (Z.le_refl 0)).
+Qed.
+
+Lemma ks_blocks_last : forall ctr0 nb k d, length ctr0 = 16%nat -> 0 <= k -> (1 <= nb)%nat ->
+  last (ks_blocks E nb (ctr_at ctr0 k)) d = E (ctr_at ctr0 (k + Z.of_nat nb - 1)).
+Proof.
+  intros ctr0 nb k d Hlen Hk Hnb.
+  replace nb with ((nb - 1) + 1)%nat at 1 by lia.
+  rewrite ks_blocks_app by assumption. cbn [ks_blocks].
+  rewrite last_last. do 2 f_equal. lia.
+Qed.
+
+(* ---- the reference keystream ---- *)
+Lemma ctr_keystream_length : forall ctr0 n, length (ctr_keystream ctr0 n) = n.
+Proof.
+  intros ctr0 n. unfold ctr_keystream. rewrite take_firstn, firstn_length, ks_concat_length. lia.
+Qed.
+
+(* any sufficiently long run of blocks gives the same first n bytes *)
+Lemma ctr_keystream_blocks : forall ctr0 n nb, length ctr0 = 16%nat -> (n <= 16 * nb)%nat ->
+  firstn n (concat (ks_blocks E nb ctr0)) = ctr_keystream ctr0 n.
+Proof.
+  intros ctr0 n nb Hlen Hnb. unfold ctr_keystream. rewrite take_firstn.
+  set (kb := ((n + 15) / 16)%nat).
+  assert (Hkb : (n <= 16 * kb /\ kb <= nb)%nat) by (subst kb; lia).
+  replace nb with (kb + (nb - kb))%nat by lia.
+  rewrite ks_blocks_app0 by exact Hlen. rewrite concat_app.
+  rewrite firstn_app_le by (rewrite ks_concat_length; lia). reflexivity.
+Qed.
+
+Lemma ctr_keystream_prefix : forall ctr0 m n, length ctr0 = 16%nat -> (m <= n)%nat ->
+  firstn m (ctr_keystream ctr0 n) = ctr_keystream ctr0 m.
+Proof.
+  intros ctr0 m n Hlen Hmn. unfold ctr_keystream at 1. rewrite take_firstn, firstn_firstn.
+  replace (Nat.min m n) with m by lia.
+  apply ctr_keystream_blocks; [exact Hlen | lia].
+Qed.
+
+(* a window of the reference keystream does not depend on how far it was generated *)
+Lemma ctr_keystream_window : forall ctr0 p n m, length ctr0 = 16%nat -> (p + n <= m)%nat ->
+  slice p n (ctr_keystream ctr0 m) = slice p n (ctr_keystream ctr0 (p + n)).
+Proof.
+  intros ctr0 p n m Hlen Hm. rewrite !slice_firstn_skipn.
+  rewrite <- (ctr_keystream_prefix ctr0 (p + n) m Hlen Hm).
+  rewrite window_of_prefix by lia. reflexivity.
+Qed.
+
+(* ---- what the state machine will output next ---- *)
+Lemma stream_tail : forall c ctr0 pos nb, wf c ctr0 pos ->
+  skipn (zn (16 - i_in c)) (i_buf c) ++ concat (ks_blocks E nb (i_ctr c)) =
+  skipn (zn pos) (concat (ks_blocks E (zn (blocks_of pos) + nb) ctr0)).
+Proof.
+  intros c ctr0 pos nb [Hpos Hlen Hctr Hin Hbl Hbuf].
+  rewrite Hctr. unfold blocks_of in *. set (k := (pos + 15) / 16) in *.
+  assert (Hk : 0 <= k) by (subst k; lia).
+  rewrite ks_blocks_app0 by exact Hlen. rewrite concat_app.
+  replace (Z.of_nat (zn k)) with k by (unfold zn; lia).
+  destruct (pos mod 16 =? 0) eqn:Hm.
+  - assert (Hin0 : i_in c = 0) by lia.
+    rewrite Hin0. rewrite (skipn_all2 (i_buf c)) by (unfold zn; lia). cbn [app].
+    replace (zn pos) with (length (concat (ks_blocks E (zn k) ctr0)) + 0)%nat
+      by (rewrite ks_concat_length; unfold zn; subst k; lia).
+    rewrite skipn_app_ge. reflexivity.
+  - assert (Hk1 : 1 <= k) by (subst k; lia).
+    assert (Hp : 0 < pos) by lia.
+    replace (zn k) with (zn (k - 1) + 1)%nat by (unfold zn; lia).
+    rewrite ks_blocks_app0 by exact Hlen. rewrite concat_app. cbn [ks_blocks concat].
+    rewrite app_nil_r.
+    replace (Z.of_nat (zn (k - 1))) with (k - 1) by (unfold zn; lia).
+    rewrite <- (Hbuf Hp). rewrite <- app_assoc.
+    replace (zn pos) with (length (concat (ks_blocks E (zn (k - 1)) ctr0)) + zn (16 - i_in c))%nat
+      by (rewrite ks_concat_length; unfold zn; subst k; lia).
+    rewrite skipn_app_ge. rewrite skipn_app_le by (unfold zn; lia). reflexivity.
+Qed.
+
+Lemma keystream_window : forall c ctr0 pos nb n, wf c ctr0 pos ->
+  (zn (blocks_of pos) + nb = (zn pos + n + 15) / 16)%nat ->
+  firstn n (skipn (zn (16 - i_in c)) (i_buf c) ++ concat (ks_blocks E nb (i_ctr c))) =
+  slice (zn pos) n (ctr_keystream ctr0 (zn pos + n)).
+Proof.
+  intros c ctr0 pos nb n Hwf Hcount.
+  rewrite (stream_tail c ctr0 pos nb Hwf), Hcount.
+  rewrite slice_firstn_skipn. unfold ctr_keystream. rewrite take_firstn.
+  rewrite window_of_prefix by lia. reflexivity.
+Qed.
